@@ -429,6 +429,38 @@ pub fn v_read(target: &str, shp: &[u8], shx: Option<&[u8]>) -> String {
     with_type!(target, T => read_all_as::<T, _>(s, x, cap), else read_all_as::<Shape, _>(s, x, cap))
 }
 
+pub fn v_readflat(target: &str, shp: &[u8], shx: Option<&[u8]>) -> String {
+    let _ = target;
+    let cap = item_cap(shp.len(), shx.map(|x| x.len()).unwrap_or(0));
+    let s = Cursor::new(shp.to_vec());
+    let x = shx.map(|x| Cursor::new(x.to_vec()));
+    guarded(move || {
+        let rdr = match x {
+            Some(x) => ShapeReader::with_shx(s, x),
+            None => ShapeReader::new(s),
+        };
+        let mut rdr = match rdr {
+            Ok(r) => r,
+            Err(e) => return format!("open err {}", show_err(&e)),
+        };
+        let mut out = String::from("open ok");
+        let mut n = 0usize;
+        for item in rdr.iter_shapes() {
+            n += 1;
+            if n > cap {
+                out += " ; runaway";
+                break;
+            }
+            out += " ; ";
+            out += &match item {
+                Ok(s) => format!("ok {}", crate::oracles::flat_sv(&s.to_sv())),
+                Err(e) => format!("err {}", show_err(&e)),
+            };
+        }
+        out
+    })
+}
+
 #[derive(Clone, Copy, Debug, PartialEq, Eq, Hash)]
 pub enum ROp {
     It(usize), // pull k items from a fresh iterator (99 = until it ends)
